@@ -1112,7 +1112,8 @@ func (d *Decoder) processParseTypeResourcePropertyElt(ectx evaluationContext, st
 	}
 
 	ectx.ParentSubject = n
-	// TODO location
+	// the generated node has no location of its own (not the enclosing node element's)
+	ectx.ParentSubjectLocation = nil
 	ectx.ParentPredicate = nil
 
 	parentContainerIndex := 0
